@@ -61,6 +61,39 @@ CLAIMS = {
         technique="static analysis: dominance / must-pass-through typestate on MIR CFG, "
                   "call-graph reachability, enum-table comparison",
     ),
+    "C08": dict(
+        text="On the rayon configuration (x86 and aarch64), for all 50 expansions of the threading "
+             "macros: the threaded branch hands the source offset to the split and 0 to the "
+             "per-band operation, the sequential branch hands it to the operation, both call the "
+             "same operation with the same remaining arguments and images; horizontal passes and "
+             "alpha operations split by height, vertical passes by width; source and destination "
+             "are split with the same size and part count on the same axis; band-count arithmetic "
+             "cannot overflow; split guards hold in all 17 split implementations; the aliasing "
+             "handle UnsafeImageMut is created only inside the default mutable splits and is the "
+             "only unsafe Send/Sync impl (witnesses W3, W5 in the thorough tier). Does NOT decide "
+             "disjointness of the band rectangles (loop-carried sums) nor anything about "
+             "scheduling at run time.",
+        note="Schedule independence is argued structurally: bands are disjoint views created by "
+             "the splits (C14) and each band runs the sequential operation; the arithmetic heart "
+             "(part sizes sum to the band) is not proved.",
+        technique="static analysis: call-site agreement between macro-expanded sibling branches "
+                  "(MIR), closure capture substitution, guard-fact entailment",
+        witness=True,
+    ),
+    "C14": dict(
+        text="For all 17 split implementations: parts are returned only after num_parts <= size "
+             "<= extent and start <= extent - size on the split axis (or pure delegation); loop "
+             "splits push exactly one part per iteration of 0..num_parts, wrapping splits map "
+             "inner parts one-to-one; cropped views forward start + own offset and re-wrap parts "
+             "with their own offset/extent on the other axis; slice-based splits cut rows of "
+             "self.width pixels; UnsafeImageMut handles are confined to the default mutable "
+             "splits; all arithmetic asserts in split code classified. Does NOT decide that part "
+             "sizes differ by at most one and sum to the band (loop-carried arithmetic).",
+        note="Exact-tiling arithmetic inside the loops is listed as UNDECIDED obligations.",
+        technique="static analysis: guard-fact entailment on Some-return paths, loop structure "
+                  "(dominators/natural loops), argument-role comparison across wrappers",
+        witness=True,
+    ),
     "C12": dict(
         text="Decides the structure of the same-size fast path: every resampler call in "
              "resize_typed is dominated by the failure edge of copy_image and the success edge "
